@@ -392,36 +392,55 @@ def stripExt (name : Bytes) : Bytes :=
   let last := (splitCh '/' name).getLast?.getD []
   if last.contains '.' then name.take (name.length - ((splitCh '.' last).getLast?.getD []).length - 1) else name
 
-/-- the entries `tests/regression/tests/*/NAME.*` (files and directories, each once): directory, entry name, is a file -/
-def testCandidates (name : Bytes) (t : Tree) : List (Bytes × Bytes × Bool) :=
+/-- the elements of the pattern `path.Join(tests/regression/tests, "*", NAME) + ".*"`, relative to the root; the last
+    one stands for `LAST.*`. `path.Join` cleans: a `..` at the start of NAME takes the `*` away, further ones climb.
+    `none`: the pattern climbs above the root, or its last element is the `*` itself. -/
+def testPattern (name : Bytes) : Option (List Bytes) :=
+  let p := Path.clean (b!"tests/regression/tests/*/" ++ name)
+  if p == b!".." || hasPrefix b!"../" p then none
+  else
+    let comps := splitCh '/' p
+    if comps.getLast? == some b!"*" then none else some comps
+
+/-- do the elements of a path begin with a match of the pattern? (`*` matches any one element, the last pattern
+    element `LAST` matches an element that begins with `LAST.`) -/
+def matchPattern : List Bytes → List Bytes → Bool
+  | [], _ => false
+  | [last], c :: _ => hasPrefix (last ++ b!".") c
+  | pe :: ps, c :: cs => (pe == b!"*" || pe == c) && matchPattern ps cs
+  | _ :: _, [] => false
+
+/-- the entries the pattern matches (files and directories, each once): path, is a file -/
+def testCandidates (pat : List Bytes) (t : Tree) : List (Bytes × Bool) :=
   (t.filterMap fun (p, _) =>
-    if hasPrefix b!"tests/regression/tests/" p then
-      match splitCh '/' (p.drop 23) with
-      | d :: b :: more => if hasPrefix (name ++ b!".") b then some (d, b, more.isEmpty) else none
-      | _ => none
-    else none).eraseDups
+    let cs := splitCh '/' p
+    if matchPattern pat cs then some (joinCh '/' (cs.take pat.length), cs.length == pat.length) else none).eraseDups
 
 /-- `util renumber-tests ARG [--check]`: the argument without its extension names the test file, whatever its directory
-    and extension (`parseFilePath`: exactly one entry must match). `none`: an argument with a path separator or a
-    pattern character (the pattern language of `filepath.Glob` is not modelled), or whose name is empty or dots only. -/
+    and extension (`parseFilePath`: exactly one entry must match the pattern, and it must lie below the tests directory —
+    D30). `none`: an argument with a pattern character (the pattern language of `filepath.Glob` is not modelled) or a
+    pattern that climbs above the root. -/
 def renumberCmd (check : Bool) (t : Tree) (arg : Bytes) : Option RunResult :=
-  if arg.any (fun c => c == '/' || c == '*' || c == '?' || c == '[' || c == '\\') then none
-  else if stripExt arg == [] || stripExt arg == b!"." || stripExt arg == b!".." then none  -- `path.Join` cleans these away
+  if arg.any (fun c => c == '*' || c == '?' || c == '[' || c == '\\') then none
   else
-    match testCandidates (stripExt arg) t with
-    | [(d, b, isFile)] =>
-      match testFileId? b with
-      | none => some ⟨true, t, []⟩  -- not a test file name: skipped without a word
-      | some id =>
-        if !isFile then some ⟨false, t, []⟩
+    match testPattern (stripExt arg) with
+    | none => none
+    | some pat =>
+      match testCandidates pat t with
+      | [(p, isFile)] =>
+        if !inDir b!"tests/regression/tests" p then some ⟨false, t, []⟩
         else
-          let p := b!"tests/regression/tests/" ++ d ++ b!"/" ++ b
-          match lookup p t with
-          | none => some ⟨false, t, []⟩
-          | some c =>
-            let (c', ok) := renumberOne check id c
-            some ⟨ok, setFile p c' t, []⟩
-    | _ => some ⟨false, t, []⟩
+          match testFileId? (baseName p) with
+          | none => some ⟨true, t, []⟩  -- not a test file name: skipped without a word
+          | some id =>
+            if !isFile then some ⟨false, t, []⟩
+            else
+              match lookup p t with
+              | none => some ⟨false, t, []⟩
+              | some c =>
+                let (c', ok) := renumberOne check id c
+                some ⟨ok, setFile p c' t, []⟩
+      | _ => some ⟨false, t, []⟩
 
 /-- `RULE_ID | --all`: exactly one of the two, at most one argument (the `Args` validators of cmd/*.go) -/
 def oneTarget (inv : Invocation) : Bool :=
